@@ -1,5 +1,7 @@
 from .. import schemabind as B, schemagen as G  # noqa
 
+objects = B.objects
+
 # B.WRAP[(cls, field)] = lambda plain_value: object        constructor takes a primitive object instead of a plain value
 # B.KW[(cls, field)] = "keyword"                           constructor keyword differs from the field name
 # B.GET[(cls, field)] = "attribute"                        attribute to read back differs from the field name
@@ -7,3 +9,9 @@ from .. import schemabind as B, schemagen as G  # noqa
 # G.UNIONS[(cls, field)] = [class names]                   candidate classes of a union field
 # G.FIELD_POOL[(cls, field)] = [abstract values] | f(ver)  values of a field when the kind's pool does not fit
 # G.HOOKS[cls] = lambda gen, val, ver, depth: val          consistency between fields of a generated value
+
+B.WRAP.update({
+    ("ExtensionInformation", "extension_name"): lambda v: objects.ExtensionName(v),
+    ("ExtensionInformation", "extension_tag"): lambda v: objects.ExtensionTag(v),
+    ("ExtensionInformation", "extension_type"): lambda v: objects.ExtensionType(v),
+})
